@@ -79,16 +79,32 @@ fn mix(h: u64, w: u64) -> u64 {
     (h.rotate_left(5) ^ w).wrapping_mul(0x517c_c1b7_2722_0a95)
 }
 
-struct Norm {
+/// How a 64-bit word of allocator state enters the fingerprint.  A word that is an address inside
+/// currently mapped memory (end inclusive) is taken relative to the anchor; an address in the arena
+/// that is NOT mapped (a stale pointer: empty-bin heads, `least_addr` after its segment was released)
+/// is abstracted to the gap of the mapping table it falls in - dereferencing it would fault (and be
+/// reported), the only other use is an order comparison with mapped addresses, which the gap index
+/// preserves.  Everything else is taken verbatim.
+struct Norm<'a> {
     lo: u64,
     len: u64,
     anchor: u64,
+    regions: &'a [(usize, usize)],
 }
-impl Norm {
+impl Norm<'_> {
     #[inline]
     fn w(&self, x: u64) -> u64 {
         if x.wrapping_sub(self.lo) < self.len {
-            x.wrapping_sub(self.anchor)
+            let mut gap = 0u64;
+            for &(a, b) in self.regions {
+                if (a as u64) <= x && x <= b as u64 {
+                    return x.wrapping_sub(self.anchor);
+                }
+                if (b as u64) < x {
+                    gap += 1;
+                }
+            }
+            0xdead_0000_0000_0000 | gap
         } else {
             x
         }
@@ -168,8 +184,13 @@ pub fn run_workload(w: &mut World, wl: &Workload, cap: usize, r: &mut Report, ve
     let mut cheap_seen: HashSet<u64> = HashSet::new();
     let mut full_at: HashMap<u64, Vec<(usize, u64)>> = HashMap::new();
     let mut res = LassoResult { rounds: 0, states: 0, recurrence: None, max_footprint: 0, final_footprint: 0, footprints: Vec::new(), crawled: false };
-    let mut first_anchor = None;
+    let mut anchors: Vec<u64> = Vec::new();
+    // the full state hash is taken in the first 64 rounds, in the 64 rounds after any round in which the
+    // kernel was called (rounds without kernel calls in between differ only in the release_checks
+    // countdown), and whenever the cheap fingerprint was seen before
+    let mut last_event_round = 0usize;
     for rd in 0..cap {
+        w.k.events.clear();
         let before_peak = w.k.peak_footprint;
         w.k.peak_footprint = w.k.footprint;
         let out = round(w, wl);
@@ -202,12 +223,9 @@ pub fn run_workload(w: &mut World, wl: &Workload, cap: usize, r: &mut Report, ve
         res.footprints.push(w.k.footprint);
         // fingerprint; addresses relative to a 64 KiB-aligned anchor (exact for policy T whose placement depends on absolute addresses)
         let anchor = if wl.policy == Policy::TopDown || w.k.regions.is_empty() { 0 } else { (w.k.regions[0].0 & !0xffff) as u64 };
-        if first_anchor.is_none() {
-            first_anchor = Some(anchor);
-        } else if first_anchor != Some(anchor) {
-            res.crawled = true;
-        }
-        let n = Norm { lo: w.k.base as u64, len: w.k.size as u64, anchor };
+        anchors.push(anchor);
+        let regions_now = w.k.regions.clone();
+        let n = Norm { lo: w.k.base as u64, len: w.k.size as u64, anchor, regions: &regions_now };
         let mut h = mix(0x1234, w.k.footprint as u64);
         h = mix(h, round_peak as u64);
         for &(a, b) in &w.k.regions {
@@ -220,11 +238,19 @@ pub fn run_workload(w: &mut World, wl: &Workload, cap: usize, r: &mut Report, ve
         let sb = w.struct_bytes();
         h = hash_words(h, sb.as_ptr(), sb.len(), &n);
         let cheap = h;
-        let seen = !cheap_seen.insert(cheap);
-        if verbose && (rd < 12 || seen) {
-            println!("  round {rd}: footprint {} (peak in round {round_peak}) regions {:x?} returned {:x?} cheap-fp {cheap:016x}{}", w.k.footprint, w.k.regions, ptrs, if seen { " (seen before)" } else { "" });
+        if verbose && std::env::var("H_ALLOC_DUMP").is_ok() && rd < 6 {
+            let q = sb.as_ptr() as *const u64;
+            let ws: Vec<String> = (0..sb.len() / 8).map(|i| format!("{:x}", n.w(unsafe { q.add(i).read_unaligned() }))).collect();
+            println!("  struct words (normalised, anchor {anchor:x}): {}", ws.join(" "));
         }
-        if rd < 64 || seen {
+        let seen = !cheap_seen.insert(cheap);
+        if verbose && (rd < 6 || seen || !w.k.events.is_empty()) {
+            println!("  round {rd}: footprint {} (peak in round {round_peak}) regions {:x?} returned {:x?} events {:?} cheap-fp {cheap:016x}{}", w.k.footprint, w.k.regions, ptrs, w.k.events, if seen { " (seen before)" } else { "" });
+        }
+        if !w.k.events.is_empty() {
+            last_event_round = rd;
+        }
+        if rd < last_event_round + 64 || seen {
             let mut f = cheap;
             for &(a, b) in &w.k.regions {
                 f = hash_words(f, a as *const u8, b - a, &n);
@@ -232,6 +258,8 @@ pub fn run_workload(w: &mut World, wl: &Workload, cap: usize, r: &mut Report, ve
             let e = full_at.entry(cheap).or_default();
             if let Some(&(i, _)) = e.iter().find(|x| x.1 == f) {
                 res.recurrence = Some((i, rd));
+                // same state at a different place: the heap moves through the address space as a whole
+                res.crawled = anchors[i] != anchors[rd];
                 break;
             }
             e.push((rd, f));
@@ -262,7 +290,7 @@ pub fn judge(wl: &Workload, res: &LassoResult, cap: usize, r: &mut Report) {
                 "period>=1000(release_checks cycle)".to_string()
             };
             r.outcome(&format!("recurrence:{cls}"));
-            r.outcome(if res.crawled { "heap-crawls-through-address-space" } else { "heap-stays-in-place" });
+            r.outcome(if res.crawled { "recurs-translated(heap-crawls-through-address-space)" } else { "recurs-at-same-addresses" });
         }
         None => {
             // growing: the end-of-round footprint keeps making new maxima in the last quarter of the run
@@ -327,10 +355,12 @@ pub fn workloads(th: bool) -> Vec<Workload> {
 }
 
 pub fn round_cap(th: bool) -> usize {
+    // the layout may go through several release_checks periods (4095 large frees each, i.e. up to 4095
+    // rounds) before it settles into its cycle, and a cycle is recognised on its second traversal
     if th {
-        4 * (MAX_RELEASE_CHECK_RATE + 1)
+        16 * (MAX_RELEASE_CHECK_RATE + 1)
     } else {
-        2 * (MAX_RELEASE_CHECK_RATE + 1) + 200
+        6 * (MAX_RELEASE_CHECK_RATE + 1)
     }
 }
 
